@@ -268,3 +268,65 @@ def split_document(rng):
     html = ('<style>@page{size:%dpx %dpx; margin:0} html{font-family:weasyprint;font-size:10px;line-height:10px}'
             'body{margin:0} td,th{padding:0;font-weight:normal;text-align:left}</style>' % (W, H)) + ''.join(parts)
     return html, g.leaves, H
+
+
+def inline_document(rng):
+    """Paragraphs that are inline formatting contexts with real line breaking INSIDE inline boxes: many short-looking
+    words per line (small font sizes), inline boxes with start / end margin, border and padding of every size (also
+    wider than the room left on the line), nested inline boxes, inline-blocks holding a word, forced line breaks,
+    in ltr and rtl, with box-decoration-break: clone or slice; blocks are split over pages of a few lines."""
+    g = G(rng, set())
+    H = rng.choice([20, 30, 40, 60])
+    W = rng.choice([120, 160, 200, 240])
+    parts = []
+
+    def spacing():
+        st = []
+        for side in ('left', 'right'):
+            r = rng.random()
+            if r < 0.45:
+                st.append('padding-%s:%dpx' % (side, rng.choice([1, 5, 10, 20, 40, 80])))
+            if rng.random() < 0.2:
+                st.append('border-%s:%dpx solid' % (side, rng.choice([1, 3, 10])))
+            if rng.random() < 0.2:
+                st.append('margin-%s:%dpx' % (side, rng.choice([2, 10, 30, -3])))
+        if rng.random() < 0.15:
+            st.append('box-decoration-break:clone')
+        return ';'.join(st)
+
+    def run_of(ws, depth):
+        out, i = [], 0
+        while i < len(ws):
+            r = rng.random()
+            if r < 0.3 and depth < 3:
+                n = min(len(ws) - i, rng.choice([1, 2, 3, 5, 8, 12]))
+                out.append('<span style="%s">%s</span>' % (spacing(), run_of(ws[i:i + n], depth + 1)))
+                i += n
+            elif r < 0.36:
+                out.append('<span style="display:inline-block;%s">%s</span>' % (spacing(), ws[i]))
+                i += 1
+            elif r < 0.4:
+                out.append(ws[i] + '<br>')
+                i += 1
+            else:
+                out.append(ws[i])
+                i += 1
+        return ' '.join(out)
+
+    for _ in range(rng.choice([1, 2, 3])):
+        ws = g.words(rng.choice([3, 6, 10, 16, 24, 40]))
+        g.leaf(ws, 'para', ['inline'])
+        fs = rng.choice([2, 3, 4, 5, 10])
+        st = ['font-size:%dpx' % fs, 'line-height:%dpx' % rng.choice([fs, 10])]
+        if rng.random() < 0.25:
+            st.append('direction:rtl')
+        if rng.random() < 0.2:
+            st.append('text-align:%s' % rng.choice(['right', 'center', 'justify']))
+        if rng.random() < 0.2:
+            st.append('orphans:%d;widows:%d' % (rng.randint(1, 3), rng.randint(1, 3)))
+        if rng.random() < 0.15:
+            st.append('text-indent:%dpx' % rng.choice([10, 40, -5]))
+        parts.append('<p style="margin:0;%s">%s</p>' % (';'.join(st), run_of(ws, 0)))
+    html = ('<style>@page{size:%dpx %dpx; margin:0} html{font-family:weasyprint;font-size:10px;line-height:10px}'
+            'body{margin:0}</style>' % (W, H)) + ''.join(parts)
+    return html, g.leaves, H
